@@ -84,6 +84,7 @@ type c20case struct {
 	Prepares int
 	Proof    bool
 	Block    bool
+	PKind    string // "" same view in both refs | "mismatch" PREPAREs of another view than the PREPREPARE | "nopp" no PREPREPARE part
 }
 
 func c20(r *Rec, replay map[string]interface{}) {
@@ -134,6 +135,13 @@ func c20(r *Rec, replay map[string]interface{}) {
 				}
 			}
 			if k == "NV" || k == "VC" {
+				for _, pk := range []string{"mismatch", "nopp"} {
+					for _, np := range []int{1, 3} {
+						c := b
+						c.Proof, c.PKind, c.Prepares, c.Votes = true, pk, np, 2
+						add(c)
+					}
+				}
 				for _, nv := range []int{0, 1, 2, 4, 20} {
 					for _, np := range []int{0, 1, 3, 20} {
 						for _, pf := range []bool{true, false} {
@@ -163,6 +171,9 @@ func c20(r *Rec, replay map[string]interface{}) {
 		m := replay["case"].(map[string]interface{})
 		c := c20case{Kind: m["Kind"].(string), IDLen: int(m["IDLen"].(float64)), HashLen: int(m["HashLen"].(float64)), SigLen: int(m["SigLen"].(float64)), Pat: m["Pat"].(string),
 			Votes: int(m["Votes"].(float64)), Prepares: int(m["Prepares"].(float64)), Proof: m["Proof"].(bool), Block: m["Block"].(bool)}
+		if pk, ok := m["PKind"].(string); ok {
+			c.PKind = pk
+		}
 		c.Inst, c.Height, c.View = f2u(m["Inst"]), f2u(m["Height"]), f2u(m["View"])
 		c20one(r, c)
 		return
@@ -279,7 +290,11 @@ func c20body(c c20case, bad func(clause, format string, a ...interface{})) {
 		if ia.HasNext() != ib.HasNext() {
 			bad("field-changed", "%s: number of prepare senders changed", what)
 		}
-		verify(what+" proof.preprepare", b.PreprepareBlockRef().BlockHeight(), b.PreprepareBlockRef().Raw(), b.PreprepareSender())
+		if len(a.RawPreprepareSender()) > 0 { // the PREPREPARE part may be absent (half proof)
+			verify(what+" proof.preprepare", b.PreprepareBlockRef().BlockHeight(), b.PreprepareBlockRef().Raw(), b.PreprepareSender())
+		} else if len(b.RawPreprepareSender()) > 0 || len(b.RawPreprepareBlockRef()) > 0 {
+			bad("proof-presence-changed", "%s: an absent PREPREPARE part became present", what)
+		}
 	}
 	prepared := func(view primitives.View) *preparedmessages.PreparedMessages {
 		if !c.Proof {
@@ -287,9 +302,17 @@ func c20body(c c20case, bad func(clause, format string, a ...interface{})) {
 		}
 		lf, _ := fac(100)
 		pm := &preparedmessages.PreparedMessages{PreprepareMessage: lf.CreatePreprepareMessage(H, view, blk, hash)}
+		pview := view
+		switch c.PKind {
+		case "mismatch":
+			pview = view + 1
+		case "nopp":
+			pm.PreprepareMessage = nil
+			pview = view + 2
+		}
 		for i := 0; i < c.Prepares; i++ {
 			pf, _ := fac(101 + i)
-			pm.PrepareMessages = append(pm.PrepareMessages, pf.CreatePrepareMessage(H, view, hash))
+			pm.PrepareMessages = append(pm.PrepareMessages, pf.CreatePrepareMessage(H, pview, hash))
 		}
 		return pm
 	}
@@ -362,7 +385,7 @@ func c20body(c c20case, bad func(clause, format string, a ...interface{})) {
 			}
 			verify("header", H, q.Content().SignedHeader().Raw(), q.Content().Sender())
 			sameProof("vote", m.Content().SignedHeader().PreparedProof(), q.Content().SignedHeader().PreparedProof())
-			if c.Proof && q.Block() != blk {
+			if c.Proof && c.PKind != "nopp" && q.Block() != blk || q.Block() != m.Block() {
 				bad("block-changed", "attached block changed")
 			}
 		}
